@@ -345,7 +345,7 @@ pub fn gen_c20(tier: &str, seed: u64, out: &str) -> Value {
     }
     let n_mixed = run_entries(&mut t, &mut mixed);
     // (3) deep: local mixed lists around pattern / random cells, straddling parent boundaries
-    let ndeep = if tier == "thorough" { 400 } else { 60 };
+    let ndeep = if tier == "thorough" { 400 } else { 90 };
     let mut n_deep = 0u64;
     for i in 0..ndeep {
         let r = 6 + (i % 22) as i32; // 6..27
@@ -359,9 +359,10 @@ pub fn gen_c20(tier: &str, seed: u64, out: &str) -> Value {
             let s = if i % 2 == 0 { s } else { (cell.s & !mask) | (1u64 << (2 * (lvl - 1))) };
             c = serialize(&A5Cell { s, ..cell }).unwrap();
         }
-        let top = a5::cell_to_parent(c, Some((r - 3).max(1))).unwrap();
+        let up = if tier == "thorough" { 3 } else { 2 };
+        let top = a5::cell_to_parent(c, Some((r - up).max(1))).unwrap();
         let mut list = vec![];
-        for d in (r - 3).max(1)..=(r + 2).min(29) {
+        for d in (r - up).max(1)..=(r + 2).min(29) {
             list.extend(a5::cell_to_children(top, Some(d)).unwrap());
         }
         // plus neighbours of the subtree in ID order: the next and previous subtree roots
